@@ -91,11 +91,27 @@ def _kind(v):
 def mutation(prog, cls, attr):
     """'yes' / 'no' / 'maybe': is the object held in self.<attr> changed in place by a method of the hierarchy?"""
     verdict = "no"
+    units = []
     for k in prog.mro(cls):
         for mname, fn in k.methods.items():
             if mname in HOOKS or not fn.args.args:
                 continue
-            me = _self_name(fn)
+            units.append((k, mname, fn, _self_name(fn)))
+    # package-level helper functions that are handed the instance (`_push(self, value)`): their parameter is the instance
+    seen_helpers = set()
+    for k, mname, fn, me in list(units):
+        for n in ast.walk(fn):
+            if isinstance(n, ast.Call) and isinstance(n.func, ast.Name) and any(isinstance(a, ast.Name) and a.id == me for a in n.args):
+                r = prog.resolve_name(k.module, n.func.id)
+                if r and r[0] == "func" and id(r[1][1]) not in seen_helpers:
+                    helper = r[1][1]
+                    pos = next(i for i, a in enumerate(n.args) if isinstance(a, ast.Name) and a.id == me)
+                    params = helper.args.posonlyargs + helper.args.args
+                    if pos < len(params):
+                        seen_helpers.add(id(helper))
+                        units.append((k, mname, helper, params[pos].arg))
+    for k, mname, fn, me in units:
+        if True:
             parents = {}
             for n in ast.walk(fn):
                 for ch in ast.iter_child_nodes(n):
